@@ -225,6 +225,34 @@ pub fn g4() -> Vec<FamGrammar> {
     out
 }
 
+/// G8: equal-core states behind a declared conflict. The latin square of G4 (`a ra d | b rb d | a rb e | b ra e`) where the
+/// two rules share a prefix of 2 or 3 tokens after which `x` is BOTH shifted (into E / F, whose reduction depends on the
+/// first token and the look-ahead, LR(1) but not LALR(1)) and the look-ahead of a reduction (`W -> prefix`, declared
+/// conflict): the table entry on `x` holds two actions, and the states before it may only be merged if those after it are.
+pub fn g8() -> Vec<FamGrammar> {
+    let mut out = vec![];
+    for plen in [2usize] { for ebody in 0..2usize { for wtail in 0..2usize { for order in 0..2usize {
+        let prefix: Vec<Value> = ["u", "v", "u"][..plen].iter().map(|t| s(t)).collect();
+        let with = |tail: Vec<Value>| { let mut v = prefix.clone(); v.extend(tail); seq(v) };
+        let eb = || if ebody == 0 { seq(vec![s("x"), s("y")]) } else { seq(vec![s("x"), opt(s("x")), s("y")]) };
+        let wt = if wtail == 0 { vec![sym("w"), s("x"), s("z")] } else { vec![sym("w"), s("x"), s("y"), s("z")] };
+        let ra = if order == 0 { choice(vec![with(vec![sym("ee")]), seq(wt.clone())]) } else { choice(vec![seq(wt.clone()), with(vec![sym("ee")])]) };
+        let g = G::new(&format!("g8_{}{}{}{}", plen, ebody, wtail, order))
+            .conflict(&["ra", "rb", "w"])
+            .rule("top", choice(vec![
+                seq(vec![s("a"), field("fa", sym("ra")), s("d")]), seq(vec![s("b"), field("fb", sym("rb")), s("d")]),
+                seq(vec![s("a"), field("fb", sym("rb")), s("e")]), seq(vec![s("b"), field("fa", sym("ra")), s("e")]),
+            ]))
+            .rule("ra", ra)
+            .rule("rb", with(vec![sym("ff")]))
+            .rule("ee", eb())
+            .rule("ff", eb())
+            .rule("w", seq(prefix.clone()));
+        out.push(FamGrammar { id: g.name.clone(), g, alphabet: vec![lit("a"), lit("b"), lit("u"), lit("v"), lit("x"), lit("y"), lit("z"), lit("d"), lit("e")], has_ws_extras: true, kind: "G8", op_table: None });
+    } } } }
+    out
+}
+
 /// G7: alias tables. Three productions `p1: '1' x x x`, `p2: '2' x x`, `p3: '3' x x x x`, each with at most one child carrying
 /// a per-production alias (position none/0/1/2), the alias named or anonymous, the rules declared in either order; `x`
 /// also occurs without alias (so the alias is not the symbol's default alias and lives in the per-production alias rows).
